@@ -86,10 +86,12 @@ def check_slices(tokens, text):
 
 def error_mark_msg(exc, text, backend, li):
     import yaml
-    if isinstance(exc, yaml.MarkedYAMLError):
-        for nm in ("context_mark", "problem_mark"):
+    if isinstance(exc, yaml.YAMLError):
+        # every mark an error carries, under whatever attribute name and on whatever error class (a reader error has none today)
+        names = sorted(set(("context_mark", "problem_mark")) | {k for k in getattr(exc, "__dict__", {}) if k.endswith("mark")})
+        for nm in names:
             m = getattr(exc, nm, None)
-            if m is None:
+            if m is None or not hasattr(m, "index"):
                 continue
             if not (0 <= m.index <= len(text)):
                 return "%s.index %d outside 0..%d" % (nm, m.index, len(text))
@@ -241,7 +243,10 @@ def encoded_cases():
 def streamed_cases():
     long_names = st.sampled_from(["- &anchor_with_a_long_name_%d [*anchor_with_a_long_name_%d, !!str &other_%d x, *other_%d]\n" % (i, i, i, i) for i in range(3)] +
                                  ["k: &a1 'single quoted scalar of some length' \n*a1 : \"double quoted\"\n", "? &k plain key of some length\n: !local-tag-name value text\n"])
-    body = st.one_of(gi.rendered_texts(2, 8), long_names, st.tuples(long_names, gi.rendered_texts(1, 6)).map(lambda t: t[0] + "--- " + t[1] if not t[1].startswith(("%", "\ufeff", "#")) else t[0]))
+    # ... and texts with a character the reader refuses, met in a later read()
+    bad = st.tuples(gi.rendered_texts(2, 6), st.sampled_from(["\x07", "\x00", "\x1f", "\x7f", "\ufffe"]), st.integers(0, 400)).map(
+        lambda t: t[0][:t[2] % (len(t[0]) + 1)] + t[1] + t[0][t[2] % (len(t[0]) + 1):])
+    body = st.one_of(gi.rendered_texts(2, 8), long_names, bad, st.tuples(long_names, gi.rendered_texts(1, 6)).map(lambda t: t[0] + "--- " + t[1] if not t[1].startswith(("%", "\ufeff", "#")) else t[0]))
     sched = st.one_of(st.lists(st.sampled_from([1, 2, 3, 5, 7, 11, 64]), min_size=1, max_size=8), st.just([4096]))
     # pad so that the interesting part straddles the reader's refill points (8192 and every 4096 after)
     pad = st.sampled_from([0, 0, 4060, 4080, 4090, 8150, 8170, 8185, 12270, 12285])
